@@ -93,6 +93,7 @@ type Ctx struct {
 	Replay  string // path of replay file when replaying, else ""
 	OnlyIdx int    // -1 or the only case index to execute (replay)
 	Root    string // /verif
+	Out     string // where evidence/ and replay/ are written (Root unless VERIF_OUT is set: scratch-copy runs)
 	Tmp     string // scratch dir (removed at exit)
 
 	start time.Time
@@ -166,6 +167,10 @@ func Main(prop, level string, run func(c *Ctx)) {
 	if c.Root == "" {
 		c.Root = "/verif"
 	}
+	c.Out = os.Getenv("VERIF_OUT")
+	if c.Out == "" {
+		c.Out = c.Root
+	}
 	c.Tmp = os.Getenv("VERIF_TMP")
 	if c.Tmp == "" {
 		c.Tmp = filepath.Join("/var/tmp", fmt.Sprintf("verif-%s-%d", prop, os.Getpid()))
@@ -204,10 +209,18 @@ func Main(prop, level string, run func(c *Ctx)) {
 }
 
 func (c *Ctx) loadFindings() {
-	b, err := os.ReadFile(filepath.Join(c.Root, "known_findings.json"))
-	if err != nil {
-		return
+	b, _ := os.ReadFile(filepath.Join(c.Root, "known_findings.json"))
+	c.addFindings(b)
+	// per-property staging files (merged into known_findings.json by tools/merge_findings.py)
+	more, _ := filepath.Glob(filepath.Join(c.Root, "known_findings.d", "*.json"))
+	for _, p := range more {
+		if b, err := os.ReadFile(p); err == nil {
+			c.addFindings(b)
+		}
 	}
+}
+
+func (c *Ctx) addFindings(b []byte) {
 	var all struct {
 		Findings []Finding `json:"findings"`
 	}
@@ -346,7 +359,7 @@ func (c *Ctx) Violation(index int, shape string, witness any, format string, a .
 		c.violations = append(c.violations, violation{})
 		return
 	}
-	dir := filepath.Join(c.Root, "replay", c.Prop)
+	dir := filepath.Join(c.Out, "replay", c.Prop)
 	os.MkdirAll(dir, 0o755)
 	path := filepath.Join(dir, fmt.Sprintf("%d-%d-%d.json", c.Seed, index, len(c.violations)))
 	if c.Replay != "" {
@@ -419,8 +432,8 @@ func (c *Ctx) finish() int {
 	}
 	if c.Replay == "" {
 		b, _ := json.MarshalIndent(ev, "", " ")
-		os.MkdirAll(filepath.Join(c.Root, "evidence"), 0o755)
-		os.WriteFile(filepath.Join(c.Root, "evidence", c.Prop+".json"), b, 0o644)
+		os.MkdirAll(filepath.Join(c.Out, "evidence"), 0o755)
+		os.WriteFile(filepath.Join(c.Out, "evidence", c.Prop+".json"), b, 0o644)
 	}
 	if len(c.violations) > 0 {
 		seen := map[string]bool{}
